@@ -36,6 +36,17 @@ fn climb(out: &mut Out, rng: &mut Rng, steps: usize, shard: usize) {
     b[0] = o::mk(o::KING, true);
     b[63] = o::mk(o::KING, false);
     let white = shard % 2 == 0;
+    // half of the climbs start from the best-known high-mobility positions of the corpus
+    if shard % 2 == 1 {
+        for f in ["R6R/3Q4/1Q4Q1/4Q3/2Q4Q/Q4Q2/pp1Q4/kBNN1KB1 w - - 0 1", "3Q4/1Q4Q1/4Q3/2Q4R/Q4Q2/3Q4/1Q4Rp/1K1BBNNk w - - 0 1"] {
+            if shard % 4 == if f.starts_with('R') { 1 } else { 3 } {
+                if let Ok(p) = fen::parse_strict(f) {
+                    b = p.b;
+                }
+            }
+        }
+    }
+    let white = if shard % 2 == 1 { true } else { white };
     let mut best = unchecked_count(&raw_fen(&b, white)).unwrap_or(0);
     let case0 = json!({"kind":"climb","shard":shard});
     out.begin(&case0);
@@ -283,7 +294,7 @@ pub fn run(tier: &str, seed: u64) -> i32 {
             let _ = std::fs::remove_dir_all(d);
         }
     }
-    let a = par::run_workers("C15bin", tier, seed, nshards.min(10), &[], wd, None, &[]);
+    let a = par::run_workers("C15bin", tier, seed, nshards.min(12), &[], wd, None, &[]);
     let d = a.workdir.clone();
     agg.merge(a);
     let _ = std::fs::remove_dir_all(d);
@@ -308,6 +319,7 @@ pub fn run(tier: &str, seed: u64) -> i32 {
     chk.need("UCI capacity runs", agg.c("uci_capacity_runs"), 4);
     chk.need("over-long game records sent to the binary", agg.c("overlong_record_runs"), 10);
     chk.need("over-long game records refused", agg.c("overlong_records_refused"), 8);
+    chk.need("hostile move strings sent to the debug-assertions binary", agg.c("hostile_move_strings"), 10000);
     chk.need("workers on the debug-assertions build", agg.c("workers_checked"), 8);
     finalize(chk, &agg)
 }
